@@ -10,9 +10,15 @@ import json, os, random, signal, socket, subprocess, threading, time, select, st
 
 import vlib
 
+# the stub server: logs how it was started and that it was stopped.  The trap is installed first, so a
+# SIGTERM that arrives before the start line was written still yields "start" + "stop"; a stub that is
+# killed while bash is still starting up leaves no trace at all (Trace_Election tolerates an unobserved
+# start that is immediately followed by its stop).
 STUB = """#!/bin/bash
-echo "start $*" >> "$WBSTUB_LOG"
-trap 'echo "stop" >> "$WBSTUB_LOG"; kill $! 2>/dev/null; exit 0' TERM INT
+ARGS="$*"
+STARTED=0
+trap 'if [ $STARTED = 0 ]; then echo "start $ARGS" >> "$WBSTUB_LOG"; fi; echo "stop" >> "$WBSTUB_LOG"; kill $! 2>/dev/null; exit 0' TERM INT
+echo "start $ARGS" >> "$WBSTUB_LOG"; STARTED=1
 sleep 100000 &
 wait $!
 """
@@ -25,6 +31,16 @@ def free_udp():
     s = socket.socket(socket.AF_INET, socket.SOCK_DGRAM)
     s.bind(("127.0.0.1", 0))
     return s
+
+
+def udp_port_bound(port):
+    """is some socket bound to this UDP port? (read-only: /proc/net/udp)"""
+    tag = ":%04X" % port
+    try:
+        with open("/proc/net/udp") as f:
+            return any(line.split()[1].endswith(tag) for line in f.read().splitlines()[1:] if line.split())
+    except OSError:
+        return True
 
 
 def free_tcp_port():
@@ -187,7 +203,10 @@ class Run:
 
 def run_scenario(cfg, steps, d, tag):
     run = Run(cfg, d, tag)
-    time.sleep(0.05)
+    # datagrams sent before the process has bound its socket would be lost: wait for the socket
+    t0 = time.time()
+    while time.time() - t0 < 10 and run.proc.poll() is None and not udp_port_bound(run.me_port):
+        time.sleep(0.003)
     mark = 0
     for st in steps:
         do = st["do"]
